@@ -81,6 +81,9 @@ func (w *c06World) packet(t c06Tok) []byte {
 	switch t.Type {
 	case "creator":
 		return s.CreatorPacket("refwriter")
+	case "creator2":
+		// a second client touched the file and left its own creator packet (different text): legal, and harmless
+		return s.CreatorPacket("another client 2.0 (appended these blocks)")
 	case "main":
 		return s.MainPacket()
 	case "fd":
@@ -122,12 +125,12 @@ func volTokens(style string, exps []int) []c06Tok {
 	case "full":
 		return append(full, rs...)
 	case "lean":
-		return append(rs, own("creator", 0))
+		return append(append(rs, own("creator", 0)), own("creator2", 0))
 	case "main":
 		return append(append([]c06Tok{own("main", 0)}, rs...), own("creator", 0))
 	case "noisy":
 		out := append([]c06Tok{oth("recv")}, rs...)
-		out = append(out, own("unknown", 0), own("ifsc", 2), own("fd", 2), oth("creator"), own("unknown", 1), own("main", 0), own("creator", 0), own("ifsc", 1), own("fd", 1))
+		out = append(out, own("unknown", 0), own("ifsc", 2), own("fd", 2), oth("creator"), own("unknown", 1), own("main", 0), own("creator", 0), own("ifsc", 1), own("creator2", 0), own("fd", 1))
 		return append(out, rs...)
 	}
 	panic("style " + style)
